@@ -194,6 +194,9 @@ def jobs_for(ctx):
         if kind == "savi":
             continue  # semi-async is C06's business (its sweep is not the synchronous backup)
         rows.append({"fn": "job_rows", "A": 1, "E": 2, "gamma": g, "mbs": 1024, "enc": "plain", "parr": False, "solver": kind})
+    if q:
+        rows.append({"fn": "job_rows", "A": 2, "E": 2, "gamma": 0.9, "mbs": 1024, "enc": "offset", "parr": True})
+        rows.append({"fn": "job_rows", "A": 1, "E": 2, "gamma": 0.5, "mbs": 7, "enc": "2d", "parr": True})
     packs = []
     for al, g, m, en in itertools.product(["M2d", "M2s"], [0.5, 0.9] if q else [0.0, 0.25, 0.5, 0.9, 1.0], [5, 1024] if q else [1, 5, "S", 1024], ["plain"] if q else ["plain", "2d", "3d-offset"]):
         packs.append({"fn": "job_pack", "alphabet": al, "gamma": g, "mbs": m, "enc": en, "parr": False, "shift": True})
